@@ -255,9 +255,17 @@ static void mode_counts(const Args& a, bool thorough) {
 
 // ------------------------------------------------------------------------------------------------------------------
 // deep nesting near the limit
-static bool depth_value(const std::string& id, MV& v) {    // id = <shape>:<D>   shape in arr|obj|mix
+static bool depth_value(const std::string& id, MV& v) {    // id = <shape>:<D>   shape in arr|obj|mix, or wide<outer><inner>:<n>
     auto p = split(id, ':'); if (p.size() < 2) return false;
     int D = atoi(p[1].c_str());
+    if (p[0].compare(0, 4, "wide") == 0 && p[0].size() == 6) {
+        // n sibling containers at depth 2: the depth bookkeeping must come back down after every one of them
+        bool outer_arr = p[0][4] == 'a', inner_arr = p[0][5] == 'a';
+        v = outer_arr ? MV::arr() : MV::obj();
+        for (int i = 0; i < D; ++i) { MV in = inner_arr ? MV::arr() : MV::obj(); if (i % 2) { if (inner_arr) in.a.push_back(MV::uint64(1)); else in.o.emplace_back("k", MV::uint64(1)); }
+            if (outer_arr) v.a.push_back(in); else v.o.emplace_back("m" + std::to_string(i), in); }
+        return D > 0;
+    }
     MV cur = p[0] == "arr" ? MV::arr() : MV::obj();      // innermost: an empty container (depth 1)
     if (D < 1) return false;
     for (int d = 2; d <= D; ++d) {
@@ -283,6 +291,16 @@ static void mode_depth(const Args& a) {
         for (int e = 0; e < NENTRY; ++e) run_case("depth", f, e, o, id, v);
         if (f == CBOR) { Opts p = o; p.pack = true; run_case("depth", f, E_JSON, p, id, v); }
         out().sample("depth " + id + " limit " + std::to_string(lim));
+    }
+    for (int L : {0, 2, 5}) for (auto shape : {"wideaa", "wideao", "wideoa", "wideoo"}) for (int f = 0; f < NFMT; ++f) {
+        int lim = L ? L : 1024;
+        if (int(idx++ % size_t(a.nslices)) != a.slice) continue;
+        if (f == BSON && shape[4] == 'a') continue;
+        std::string id = std::string(shape) + ":" + std::to_string(lim + 3);
+        MV v; if (!depth_value(id, v)) continue;
+        Opts o; o.depth = L;
+        for (int e = 0; e < NENTRY; ++e) run_case("depth", f, e, o, id, v);
+        if (f == CBOR) { Opts p = o; p.pack = true; run_case("depth", f, E_JSON, p, id, v); }
     }
 }
 
@@ -341,6 +359,7 @@ static bool strref_value(const std::string& id, MV& v) {
     if (fam == "ext") {               // byte strings with raw tags, repeated
         std::string x = "wxyz";
         v.a.push_back(ext_bytes(x, 274)); v.a.push_back(ext_bytes(x, 274)); v.a.push_back(ext_bytes(x, 1000)); v.a.push_back(MV::bytes(x)); v.a.push_back(ext_bytes(x, 274));
+        v.a.push_back(MV::str("ccc")); v.a.push_back(ext_bytes(x, 274)); v.a.push_back(MV::bytes("pqrs", T_B16)); v.a.push_back(MV::str("ddd")); v.a.push_back(MV::bytes("pqrs", T_B16)); v.a.push_back(MV::str("ccc")); v.a.push_back(MV::str("ddd"));
         return true;
     }
     if (fam == "bignum") {            // a bignum / decimal fraction / bigfloat whose byte-string payload is long enough to be indexed, among repeated strings
@@ -349,6 +368,8 @@ static bool strref_value(const std::string& id, MV& v) {
                : kind == "bigdec" ? MV::str("18446744073709551616e-3", T_BIGDEC) : kind == "bigfloat" ? MV::str("0x10000000000000000p-3", T_BIGFLOAT)
                : kind == "smallbigint" ? MV::str("65536", T_BIGINT) : MV::str("255", T_BIGINT);
         v.a.push_back(MV::str("aaa")); v.a.push_back(big); v.a.push_back(MV::str("bbb")); v.a.push_back(MV::str("aaa")); v.a.push_back(MV::str("bbb")); v.a.push_back(big); v.a.push_back(MV::str("bbb"));
+        // strings first seen after the repeated bignum, and referenced after yet another repetition
+        v.a.push_back(MV::str("ccc")); v.a.push_back(big); v.a.push_back(MV::str("ddd")); v.a.push_back(MV::str("ccc")); v.a.push_back(MV::str("ddd")); v.a.push_back(MV::str("aaa"));
         return true;
     }
     if (fam == "typed") {             // typed:<type>: a typed array (streaming entry) among repeated strings
@@ -356,6 +377,7 @@ static bool strref_value(const std::string& id, MV& v) {
         MV ta = MV::arr(); ta.fine = ty;
         for (int i = 0; i < 4; ++i) ta.a.push_back(ty == 'f' || ty == 'd' ? MV::dbl(1.5 * i) : ty == 'e' ? MV::half(uint16_t(0x3c00 + i)) : MV::uint64(uint64_t(i + 1)));
         v.a.push_back(MV::str("aaa")); v.a.push_back(ta); v.a.push_back(MV::str("bbb")); v.a.push_back(MV::str("aaa")); v.a.push_back(MV::str("bbb"));
+        v.a.push_back(ta); v.a.push_back(MV::str("ccc")); v.a.push_back(ta); v.a.push_back(MV::str("ddd")); v.a.push_back(MV::str("ccc")); v.a.push_back(MV::str("ddd")); v.a.push_back(MV::str("aaa"));
         return true;
     }
     if (fam == "nested") {
